@@ -5,7 +5,11 @@
    the trace).  The schedule is not controlled: the checks below hold for EVERY trace the unchanged code
    can produce, they never depend on which one occurred.
 
-   [check_case]: the trace is a behaviour of the model (Model/Executor.v): f of task j begins only after
+   [check_case] = [check_stmts] && [lts_accepts]:
+   [lts_accepts]: TRACE INCLUSION -- the observed trace (with Wait's result appended) is the visible part of a run of
+   the LTS Model/Executor.v: the acceptor Model/ExecutorAccept.v interleaves the unobservable labels and replays
+   the LTS label by label; Proofs/ExecutorAccept_proofs.v: an accepted trace is a trace of the LTS ([accepts_sound]).
+   [check_stmts]: the trace is a behaviour of the model (Model/Executor.v): f of task j begins only after
    every task in the model's dependency set [sdeps] of j ended successfully ([sdeps] is computed by running the
    model's own registration labels on the task list, so this compares the Go executor's observed waiting with
    the LTS's bookkeeping; the proved theorems C08_order / C08_order_code are about the conflict relations, of
@@ -15,9 +19,9 @@
    the sticky error.
    [spec_ok]: the property text evaluated on the trace with its own notion of conflict (shared key, one
    side more than read), written without the model's dependency sets. *)
-From Coq Require Import List NArith Bool Arith.
+From Coq Require Import List NArith ZArith Bool Arith.
 Import ListNotations.
-From HV Require Import Lib.Harness Model.Executor.
+From HV Require Import Lib.Harness Model.Executor Model.ExecutorAccept.
 
 Inductive ev :=
 | ERun (j : nat)              (* driver: about to call Run for task j *)
@@ -155,12 +159,25 @@ Definition common (c : case) : bool :=
   (negb (Nat.eqb (c_w c) 1) || single_ok false (c_evs c)) &&
   wait_ok n (c_evs c) (c_wait c).
 
-(* model acceptance *)
-Definition check_case (c : case) : bool :=
+(* model acceptance, statement level *)
+Definition check_stmts (c : case) : bool :=
   let n := length (c_tasks c) in
   let st := sdeps_state (c_tasks c) in
   let depf := sdeps_of st in
   common c && deps_ok depf n (c_evs c) && after_known_ok depf n (c_evs c).
+
+(* ---- trace inclusion in the LTS ------------------------------------------------------------------------ *)
+Definition to_oev (e : ev) : oev :=
+  match e with
+  | ERun j => ORun j | EBeg j => OBeg j | EEnd j ok => OEnd j ok | EStopCall => OStopCall | EStopRet => OStopRet
+  | ESeen x => OSeen x | EWaitCall => OWaitCall
+  end.
+(* the driver constructs the executor with maxDependencies = 100000000 and [c_w] workers *)
+Definition cfg_of (c : case) : cfg := mkC (c_tasks c) 100000000%Z (c_w c).
+Definition lts_accepts (c : case) : bool :=
+  accepts (cfg_of c) (map to_oev (c_evs c) ++ [OWaitRet (c_wait c)]).
+
+Definition check_case (c : case) : bool := check_stmts c && lts_accepts c.
 
 (* the property, with its own conflict relation *)
 Definition conflicts_before (ts : list task) (j : nat) : list nat :=
@@ -177,3 +194,14 @@ Definition selftest_good : case :=
   mk st_tasks 2 [ERun 0; EBeg 0; ERun 1; EEnd 0 true; EBeg 1; EEnd 1 true; EWaitCall] 0%N false.
 Definition selftest_bad : case :=
   mk st_tasks 2 [ERun 0; EBeg 0; ERun 1; EBeg 1; EEnd 0 true; EEnd 1 true; EWaitCall] 0%N false.
+
+(* a trace that satisfies every statement of [check_stmts] but is not a trace of the LTS: three independent
+   tasks on two workers; the worker whose task 0 failed is the only one that can have taken task 2 (task 1 is
+   still running on the other one), and it took it after its CompareAndSwap, so f of task 2 cannot begin *)
+Definition st3 : list task := [[(0%N, 5%N)]; [(1%N, 5%N)]; [(2%N, 5%N)]].
+Definition selftest_outside : case :=
+  mk st3 2 [ERun 0; ERun 1; ERun 2; EBeg 0; EBeg 1; EEnd 0 false; EBeg 2; EEnd 1 true; EEnd 2 true; ESeen 2; EWaitCall]
+     2%N false.
+Definition selftest_inside : case :=
+  mk st3 2 [ERun 0; ERun 1; ERun 2; EBeg 0; EBeg 1; EEnd 0 false; EEnd 1 true; EBeg 2; EEnd 2 true; ESeen 2; EWaitCall]
+     2%N false.
